@@ -7,7 +7,54 @@ from harness.props import c01
 c01_run = c01.run
 
 
+def same_stem_reports(ctx, n):
+    """a.py beside a/ (one module name for a file and a package): the report of 'a should not import o' names the import
+    written in a.py AND the one written in a/inner.py - whichever of the two the directory listing gives first."""
+    import pathlib
+    import shutil
+    from pytestarch import get_evaluable_architecture
+    from harness import common, rules, scan
+    for it in range(n):
+        rng = ctx.rng
+        tw, inner, other = rng.sample(scan.POOL, 3)
+        d = common.scratch_dir()
+        try:
+            root = d / "proj"
+            (root / tw).mkdir(parents=True)
+            (root / (other + ".py")).write_text("")
+            (root / (tw + ".py")).write_text(f"import proj.{other}\n")
+            (root / tw / (inner + ".py")).write_text(f"from proj import {other}\n")
+            exp = frozenset({("C", f"proj.{tw}", f"proj.{other}"), ("C", f"proj.{tw}.{inner}", f"proj.{other}")})
+            orig = pathlib.Path.iterdir
+            for order in ("ascending", "descending"):
+                def listed(self, _orig=orig, _o=order):
+                    return iter(sorted(_orig(self), reverse=_o == "descending"))
+                pathlib.Path.iterdir = listed
+                try:
+                    arch = get_evaluable_architecture(str(root), str(root))
+                finally:
+                    pathlib.Path.iterdir = orig
+                for spec in (dict(subj=("named", [f"proj.{tw}"]), verbs=["should_not"], imp=True, exc=False, obj=("named", [f"proj.{other}"])),
+                             dict(subj=("named", [f"proj.{other}"]), verbs=["should_not"], imp=False, exc=False, obj=("named", [f"proj.{tw}"]))):
+                    io = rules.run_rule(rules.build_rule(spec), arch)
+                    ctx.evaluations += 1
+                    ctx.stat("reports_on_a_file_and_a_directory_of_one_name")
+                    got = rules.parse_message(io[1]) if io[0] == "FAIL" else None
+                    want = exp if spec["imp"] else frozenset(("C", b, a) for (_c, a, b) in exp)
+                    if spec["imp"]:
+                        ok = got == want
+                    else:
+                        ok = io[0] == "FAIL" and got is not None and {(l[1], l[2]) for l in got} in ({(a, b) for (_c, a, b) in exp}, {(b, a) for (_c, a, b) in exp})
+                    if not ok:
+                        ctx.violation(dict(tree=[f"proj/{tw}.py", f"proj/{tw}/{inner}.py", f"proj/{other}.py"], directory_listing=order, spec=rules._jsonable_spec(spec), result=[io[0], io[1][:300]]),
+                                      f"{tw}.py beside {tw}/: the report does not name exactly the two offending imports", {"kind": "same_stem_report"})
+            ctx.mark_nontrivial(("same_stem_report", tw, inner, other))
+        finally:
+            shutil.rmtree(d, ignore_errors=True)
+
+
 def run(ctx):
+    same_stem_reports(ctx, 8 if ctx.quick else 200)
     c01.run(ctx, lines=True)
     ctx.rule = ctx.rule.replace("each rule evaluated", "report lines (parsed from str(AssertionError)) compared as sets with the model's and, for strict rules, with the documented violating set; each rule evaluated")
 
